@@ -343,6 +343,7 @@ type RGen struct {
 	// NoDomain/NoRegex etc. let callers trim for particular targets.
 	NoRegex   bool
 	MaxRules  int
+	ExactRules int // if >0, generate exactly this many rules
 	WideOr    bool // allow very wide OR chains (>32 values)
 	V6Slash0  bool // include ::/0 in the prefix pool
 	KernelSafe bool // restrict to what both kernel and userspace can decide identically
@@ -481,6 +482,9 @@ func (g *RGen) Gen() *RProg {
 		max = 12
 	}
 	n := 1 + g.R.IntN(max)
+	if g.ExactRules > 0 {
+		n = g.ExactRules
+	}
 	p := &RProg{}
 	fs := g.funcs()
 	for i := 0; i < n; i++ {
